@@ -970,28 +970,50 @@ def run(ctx: vlib.Ctx):
         "(call dialect, Config.dialect, Config in {unset,F,T}^3 each, default dialect via BasicEncoder, sort_keys, lazy, "
         "4 code generation flags, keyword arguments) x values (None / the default / ==-equal of another type / other); "
         "lattice: fixed 6-field family x every (call, Config.dialect, Config) namespace triple (thorough: all 21168, "
-        "quick: slice); nested: outer x inner classes with independent option vectors, list/optional/union members. "
+        "quick: slice); nested: class tables of 2-4 mixin classes with independent option vectors and flags, direct / "
+        "Optional / Union[...] dataclass fields, random instance trees, root keyword arguments. "
         "distinct = (schema shape, option vector, values)")
     ctx.trusted += [
-        "OptProj.v: model of the generated to_dict body is FLAT (parametric in the packed value of each field); "
-        "compared with the real classes on every generated case (list(to_dict(**kw).items()) == dict_of(model), "
-        "type-sensitive)",
-        "pv: Python values seen by the body are None/bool/int/integral float/NaN/str/opaque; equality of opaque "
-        "objects is decided by the harness ((type, repr) classes of date/list/tuple values)",
+        "OptProj.v: hand-written model of the generated to_dict body (kwargs-vs-literal form, nullable / omit_default / "
+        "by_alias / omit_none branches, default-method -> dialect-method dispatch with forwarded keyword defaults), "
+        "parametric in the packed value of each non-dataclass field; compared with real classes on every generated "
+        "case: list(to_dict(**kw).items()) == dict_of(model), type-sensitive, TypeError <-> None",
+        "OptNested.v: nested dataclasses and unions of dataclasses on the mixin path (dynamic dispatch, flags = K8 both, "
+        "pack_union first accepting member); compared with real class tables of 2-4 classes",
+        "pv: Python values seen by the body are None/bool/int/float/NaN/str/opaque; equality of opaque objects is "
+        "decided by the harness ((type, repr) classes of date/list/tuple values)",
         "tools/kernels/k8_packflags.py: is_code_generation_option_enabled abstracted as a namespace lookup (source "
-        "text of the method is checked), pass_encoder=False slice of get_pack_method_flags",
+        "text of the method is checked), pass_encoder=False slice of get_pack_method_flags; K3 abstraction of "
+        "self.dialect / Config.dialect / Config / default_dialect as four namespaces (tools/gen_kernels.py)",
+        "harness: nullable / trivial-packer / default classification of the 14 field shapes, materialisation of "
+        "option vectors as Config / Dialect classes, the twin class generator",
     ]
     ctx.assumptions += [
         "instances conform to the field types: a key of the plain output is None only for a nullable field holding "
-        "None (vals_ok); custom serialization strategies returning None are outside",
+        "None (vals_ok/none_ok); custom serialization strategies returning None are outside",
         "value equals default: Python == on the attribute value; a NaN default is matched by NaN",
-        "D14 corner (call dialect vs forwarded keyword defaults) excluded by flag_defaults_ok and proved refuted",
+        "excluded corners, each proved refuted in Coq and listed as a known finding: call dialect vs forwarded keyword "
+        "defaults (flag_defaults_ok), math.isnan on a non-number (nan_ok), union member flags (ok_h: flags_eqb)",
+        "nested: mixin classes only (codec path forwards no flags); dataclass-typed fields have no default other than None",
+        "hooks, context values, format encoders (to_json ...) and lazy compilation do not change the mapping: exercised "
+        "by the oracle (lazy, context flag), not part of the model",
     ]
     thm = ["C08_project_partial", "C08_project_refuted", "C08_nan_default_refuted", "C08_project_actual"]
     ctx.theorems("props/C08_kernel_K3.vo", ["K3_order", "K3_look"], kernels=["K3"])
     ctx.theorems("props/C08_kernel_K8.vo", ["K8_forward", "K8_use_kwargs"], kernels=["K8"])
     ctx.theorems("props/C08_project.vo", thm)
     ctx.theorems("props/C08_nested.vo", ["C08_nested_partial", "C08_union_flags_refuted", "C08_forwarded_exactly", "C08_no_leak"])
+
+    if not ctx.quick():
+        # second opinion: the independent checker on the compiled property files
+        with vlib.Lock("build"):
+            rc, out, _ = vlib.run(["timeout", "600", "coqchk", "-silent", "-o", "-Q", "theories", "Verif", "-Q", "gen", "VerifGen",
+                                   "-Q", "props", "VerifProps", "VerifProps.C08_project", "VerifProps.C08_nested",
+                                   "VerifProps.C08_kernel_K3", "VerifProps.C08_kernel_K8"], cwd=vlib.COQ, timeout=640)
+        ok = rc == 0 and "Axioms: <none>" in out
+        ctx.obligation("coqchk -o (C08_project, C08_nested, C08_kernel_K3, C08_kernel_K8): no axioms", ok, out[-600:])
+        if not ok:
+            ctx.not_shown("coqchk", out[-1500:])
 
     cases: list[str] = []
     info: list = []
